@@ -51,11 +51,12 @@ class FileSystemLoader(BaseLoader):
         """
         template_path = Path(template_name)
 
-        if self.ext and template_path.name and not template_path.suffix:
-            template_path = template_path.with_suffix(self.ext)
-
+        # Check before adding the default extension, which turns `..` into `...ext`.
         if template_path.is_absolute() or os.path.pardir in template_path.parts:
             raise TemplateNotFoundError(template_name)
+
+        if self.ext and template_path.name and not template_path.suffix:
+            template_path = template_path.with_suffix(self.ext)
 
         for path in self.search_path:
             source_path = path.joinpath(template_path)
